@@ -106,7 +106,8 @@ pub fn ref_intervals(c: &Case, tp: &TrainParams) -> Vec<(f64, f64, f64)> {
     let add = if c.head_end { 0.0 } else { c.train_len as f64 * UNIT_M };
     for (i, lims) in c.links.iter().enumerate() {
         for (s, e, v) in lims {
-            out.push((base + *s as f64 * UNIT_M, base + *e as f64 * UNIT_M + add, *v));
+            // a negative speed is a limit of that magnitude (the braking-point code takes the absolute value)
+            out.push((base + *s as f64 * UNIT_M, base + *e as f64 * UNIT_M + add, v.abs()));
         }
         base += c.link_len[i] as f64 * UNIT_M;
     }
@@ -232,7 +233,7 @@ pub fn evaluate(c: &Case, net: &Network, tp: &TrainParams, want_sig: bool) -> Ev
     let mut below = None;
     for x in xs {
         let r = ref_at(&ints, c.speed_max, x);
-        let i = impl_at(&pts, x);
+        let i = impl_at(&pts, x).abs();
         ev.checks += 1;
         if i > r && above.is_none() {
             above = Some((x, i, r));
@@ -271,7 +272,8 @@ pub fn evaluate(c: &Case, net: &Network, tp: &TrainParams, want_sig: bool) -> Ev
     if pts.windows(2).any(|w| w[0].0 > w[1].0) {
         ev.viol.push((format!("profile-unsorted@speed_points:{fam}"), format!("profile={:?}", pts), "C13"));
     }
-    if pts.windows(2).any(|w| w[0].1 == w[1].1) {
+    let any_negative = c.links.iter().any(|l| l.iter().any(|r| r.2 < 0.0));
+    if !any_negative && pts.windows(2).any(|w| w[0].1 == w[1].1) {
         ev.viol.push((format!("redundant-equal-neighbours@speed_points:{fam}"), format!("profile={:?}", pts), "C13"));
     }
     // the library's own validity predicate must accept what it built
@@ -317,13 +319,17 @@ pub fn evaluate(c: &Case, net: &Network, tp: &TrainParams, want_sig: bool) -> Ev
 }
 
 fn triples(g: u32) -> Vec<(u32, u32, f64)> {
+    triples_with(g, &SPEEDS)
+}
+
+fn triples_with(g: u32, speeds: &[f64]) -> Vec<(u32, u32, f64)> {
     let mut t = vec![];
     // zero-length (point) restrictions s == e are valid speed limits: a head-end one binds nowhere, a tail-end one
     // binds over the train length behind it
     for s in 0..=g {
         for e in s..=g {
-            for v in SPEEDS {
-                t.push((s, e, v));
+            for v in speeds {
+                t.push((s, e, *v));
             }
         }
     }
@@ -380,19 +386,23 @@ struct Family {
     r: usize,
     speed_maxes: Vec<f64>,
     train_lens: Vec<u32>,
+    /// speeds {5, -10, 15, -15}: negative values are limits of that magnitude
+    negative: bool,
 }
 
 fn families(tier: Tier) -> Vec<Family> {
     match tier {
         Tier::Quick => vec![
-            Family { g: 6, r: 4, speed_maxes: vec![12.0, 20.0], train_lens: vec![1, 3] },
-            Family { g: 8, r: 3, speed_maxes: vec![15.0, 20.0], train_lens: vec![1, 3] },
+            Family { g: 6, r: 4, speed_maxes: vec![12.0, 20.0], train_lens: vec![1, 3], negative: false },
+            Family { g: 8, r: 3, speed_maxes: vec![15.0, 20.0], train_lens: vec![1, 3], negative: false },
+            Family { g: 5, r: 3, speed_maxes: vec![12.0, 20.0], train_lens: vec![1], negative: true },
         ],
         Tier::Thorough => vec![
-            Family { g: 6, r: 4, speed_maxes: vec![12.0, 15.0, 20.0], train_lens: vec![1, 3] },
-            Family { g: 8, r: 4, speed_maxes: vec![12.0, 20.0], train_lens: vec![1, 3] },
-            Family { g: 10, r: 3, speed_maxes: vec![12.0, 20.0], train_lens: vec![1, 3] },
-            Family { g: 7, r: 5, speed_maxes: vec![20.0], train_lens: vec![2] },
+            Family { g: 6, r: 4, speed_maxes: vec![12.0, 15.0, 20.0], train_lens: vec![1, 3], negative: false },
+            Family { g: 8, r: 4, speed_maxes: vec![12.0, 20.0], train_lens: vec![1, 3], negative: false },
+            Family { g: 10, r: 3, speed_maxes: vec![12.0, 20.0], train_lens: vec![1, 3], negative: false },
+            Family { g: 7, r: 5, speed_maxes: vec![20.0], train_lens: vec![2], negative: false },
+            Family { g: 6, r: 4, speed_maxes: vec![12.0, 20.0], train_lens: vec![1, 3], negative: true },
         ],
     }
 }
@@ -454,7 +464,7 @@ impl Prop for C02C13 {
         let mut n = 0u64;
         // ---- single link ----
         for fam in families(ctx.tier) {
-            let tri = triples(fam.g);
+            let tri = if fam.negative { triples_with(fam.g, &[5.0, -10.0, 15.0, -15.0]) } else { triples(fam.g) };
             for &speed_max in &fam.speed_maxes {
                 for &tl in &fam.train_lens {
                     for head in [true, false] {
